@@ -1,4 +1,5 @@
 import Anndb.Proofs.SimdExact
+import Anndb.Proofs.SimdRound
 import Anndb.Generated
 /-!
 # C15 — AVX/SSE distance kernels agree with the portable kernels and stay in bounds (partial)
@@ -82,6 +83,83 @@ theorem alignment_in_code :
 
 /-- why `|` and not `&` (seeded change C15-C): `pa & pb & 15 = 0` lets an operand at offset 4 through -/
 theorem and_guard_is_wrong : (0 &&& 4) % 16 = 0 ∧ ¬ ((0 : Nat) % 16 = 0 ∧ (4 : Nat) % 16 = 0) := by decide
+
+/-! ### up to floating-point rounding
+
+The same lane-faithful definitions with every operation followed by a rounding `fl` that obeys the
+standard model `|fl x - x| ≤ u |x|` (float32, round to nearest: `u = 2⁻²⁴`; valid while nothing
+overflows or underflows — the four known findings are exactly inputs where it does). -/
+
+/-- **AVX, SSE and the portable kernel agree up to rounding** (squared Euclidean distance, every
+length `n`): each is within `((1+u)^(n+6) - 1) · S` of the exact `S = Σ (aᵢ-bᵢ)²`, hence any two of
+them within twice that. -/
+theorem euclid_agree_up_to_rounding (fl : α → α) (u : α) (M : StdModel fl u) (a b : List α) (h : a.length = b.length) :
+    let S := (List.zipWith (sqDiff (exactOps α sq (|·|))) a b).sum
+    let R := roundedOps fl sq
+    (|euclidSq R 8 a b - S| ≤ gam u (a.length + 6) * S ∧
+     |euclidSq R 4 a b - S| ≤ gam u (a.length + 6) * S ∧
+     |seqSum R (sqDiff R) a b - S| ≤ gam u (a.length + 6) * S) ∧
+    |euclidSq R 8 a b - seqSum R (sqDiff R) a b| ≤ 2 * (gam u (a.length + 6) * S) ∧
+    |euclidSq R 4 a b - seqSum R (sqDiff R) a b| ≤ 2 * (gam u (a.length + 6) * S) :=
+  ⟨euclidSq_round fl u sq M a b h, (euclidSq_agree_round fl u sq M a b h).1, (euclidSq_agree_round fl u sq M a b h).2.1⟩
+
+/-- in the familiar linear form: relative deviation at most `4 (n+6) u` between any two
+implementations as long as `2 (n+6) u ≤ 1` (for float32 and `n ≤ 4096`: below `10⁻³`) -/
+theorem euclid_agree_linear (fl : α → α) (u : α) (M : StdModel fl u) (a b : List α) (h : a.length = b.length)
+    (hn : 2 * (((a.length + 6 : Nat) : α) * u) ≤ 1) :
+    let S := (List.zipWith (sqDiff (exactOps α sq (|·|))) a b).sum
+    let R := roundedOps fl sq
+    |euclidSq R 8 a b - seqSum R (sqDiff R) a b| ≤ 4 * (((a.length + 6 : Nat) : α) * u) * S ∧
+    |euclidSq R 4 a b - seqSum R (sqDiff R) a b| ≤ 4 * (((a.length + 6 : Nat) : α) * u) * S := by
+  intro S R
+  have hg := gam_le_linear M.u_nonneg (a.length + 6) hn
+  have hS : 0 ≤ S := List.sum_nonneg (by
+    intro x hx
+    obtain ⟨i, hi, rfl⟩ := List.getElem_of_mem hx
+    simp only [List.getElem_zipWith]
+    exact sqDiff_exact_nonneg sq _ _)
+  obtain ⟨h8, h4, _⟩ := euclidSq_agree_round fl u sq M a b h
+  have hb : gam u (a.length + 6) * S ≤ 2 * (((a.length + 6 : Nat) : α) * u) * S :=
+    mul_le_mul_of_nonneg_right hg hS
+  constructor <;> nlinarith
+
+/-- **The cosine kernels' three sums** (dot product, both squared norms) up to rounding, blocked
+and sequential. (The final `1 - dot / sqrt(‖a‖²‖b‖²)` is not carried further: its two forms differ
+exactly where the norm product leaves the float32 range — the known findings.) -/
+theorem cosine_sums_up_to_rounding (fl : α → α) (u : α) (M : StdModel fl u) (w : Nat) (hw : w = 8 ∨ w = 4)
+    (a b : List α) (h : a.length = b.length) :
+    let R := roundedOps fl sq
+    |blocked R w R.mul R.mul a b - (List.zipWith (· * ·) a b).sum| ≤ gam u (a.length + 4) * (List.zipWith (fun x y => |x * y|) a b).sum ∧
+    |seqSum R R.mul a b - (List.zipWith (· * ·) a b).sum| ≤ gam u (a.length + 4) * (List.zipWith (fun x y => |x * y|) a b).sum ∧
+    |blocked R w (fun x _ => R.mul x x) (fun x _ => R.mul x x) a b - (List.zipWith (fun x _ => x * x) a b).sum|
+        ≤ gam u (a.length + 4) * (List.zipWith (fun x _ => x * x) a b).sum :=
+  cosine_sums_round fl u sq M w hw a b h
+
+/-- **Manhattan up to rounding**, under the one step that is not covered by the standard model:
+`sqrt(d·d)` is as accurate as three roundings of `|d|` (`hsqrt`). Where `d·d` underflows or
+overflows in float32 that fails — known findings `C15/avx/manhattan/square-*`. -/
+theorem manhattan_agree_up_to_rounding (fl : α → α) (u : α) (M : StdModel fl u) (w : Nat) (hw : w = 8 ∨ w = 4)
+    (hsqrt : ∀ x y, Err u 3 ((roundedOps fl sq).sqrt (sqDiff (roundedOps fl sq) x y)) |x - y| |x - y|)
+    (a b : List α) (h : a.length = b.length) :
+    let S := (List.zipWith (fun x y => |x - y|) a b).sum
+    |manhattan (roundedOps fl sq) w a b - S| ≤ gam u (a.length + 6) * S ∧
+    |nativeManhattan (roundedOps fl sq) a b - S| ≤ gam u (a.length + 6) * S :=
+  manhattan_round fl u sq M w hw hsqrt a b h
+
+/-- non-vacuity: roundings that obey the standard model exist — the identity (`u = 0`), and a
+rounding that errs by the full `u` on every value -/
+example : StdModel (fun x : α => x) 0 := ⟨le_refl _, by intro x; simp⟩
+example (u : α) (hu : 0 ≤ u) : StdModel (fun x : α => x * (1 + u)) u :=
+  ⟨hu, by
+    intro x
+    have : x * (1 + u) - x = u * x := by ring
+    rw [this, abs_mul, abs_of_nonneg hu]⟩
+/-- and with exact rounding and an exact square root, the `sqrt(d·d)` hypothesis holds -/
+example (hsq : ∀ x : α, sq (x * x) = |x|) (x y : α) :
+    Err (0 : α) 3 ((roundedOps (fun z => z) sq).sqrt (sqDiff (roundedOps (fun z => z) sq) x y)) |x - y| |x - y| := by
+  have e : (roundedOps (fun z => z) sq).sqrt (sqDiff (roundedOps (fun z => z) sq) x y) = sq ((x - y) * (x - y)) := rfl
+  rw [e, hsq]
+  exact ⟨by simp [gam], by simp⟩
 
 /-- non-vacuity over ℚ-like arithmetic is immediate: the hypotheses are only equal lengths -/
 example (a b : List α) (h : a.length = b.length) : 0 ≤ euclidSq (exactOps α sq (|·|)) 8 a b :=
